@@ -7,7 +7,9 @@ inside the format (C09), (c) constructing structural corruptions that are
 guaranteed to be outside it (C15).
 """
 import copy
+import json
 import math
+import re
 
 PRIMS = ["Count", "Sum", "Average", "Deviate", "Minimize", "Maximize", "Bag", "Bin", "SparselyBin",
          "CentrallyBin", "IrregularlyBin", "Stack", "Fraction", "Select", "Categorize", "Label",
@@ -242,7 +244,7 @@ def _valid_d(d, parent, v):
     if k == "type":
         return isinstance(v, str) and v in G
     if k == "range":
-        return isinstance(v, str)
+        return isinstance(v, str) and re.fullmatch(r"S|N|N[1-9][0-9]*", v) is not None
     if k == "frag":
         t = parent[d[1]]
         return isinstance(t, str) and _valid(t, v)
@@ -253,7 +255,8 @@ def _valid_d(d, parent, v):
             return False
         if d[2] == "int":
             for kk in v:
-                int(kk)
+                if str(int(kk)) != kk:  # "03", " 3", "+3" are other spellings of 3: two of them would collide
+                    return False
         if d[2] == "str1" and len(v) < 1:
             return False
         return all(_valid_d(d[1], parent, x) for x in v.values())
@@ -270,9 +273,19 @@ def _valid_d(d, parent, v):
             if not isinstance(x, dict) or set(x) != {"w", "v"} or not is_num(x["w"]):
                 return False
             vv = x["v"]
-            if not (is_num(vv) or isinstance(vv, str) or (isinstance(vv, list) and all(is_num(t) for t in vv))):
+            rng_ = parent.get("range") if isinstance(parent, dict) else None
+            if rng_ == "S":
+                ok = isinstance(vv, str)
+            elif rng_ == "N":
+                ok = is_num(vv)
+            elif isinstance(rng_, str) and rng_[1:].isdigit():
+                ok = isinstance(vv, list) and len(vv) == int(rng_[1:]) and all(is_num(t) for t in vv)
+            else:
+                ok = False
+            if not ok:
                 return False
-        return True
+        keys = [json.dumps(x["v"], sort_keys=True) for x in v]
+        return len(set(keys)) == len(keys)  # one entry per value
     raise ValueError(d)
 
 
@@ -395,6 +408,21 @@ def _mut_d(doc, path, d, key, where):
             m = copy.deepcopy(doc)
             set_path(m, path, val)
             yield "retype:%s:%s %s" % (key, how, where), m
+        if k == "range":
+            for bad in ("Q", "n", "N0", "SS", ""):
+                m = copy.deepcopy(doc)
+                set_path(m, path, bad)
+                yield "rename-range:%s %s" % (bad or "empty", where), m
+            cur = get_path(doc, path)
+            holder = get_path(doc, path[:-1])
+            if isinstance(holder, dict) and holder.get("values"):
+                # another (well-formed) range than the one the stored values have
+                for other in ("S", "N", "N2"):
+                    if other != cur:
+                        m = copy.deepcopy(doc)
+                        set_path(m, path, other)
+                        if not valid_document(m):  # e.g. N -> S stays well-formed when every value is spelled "nan" / "inf"
+                            yield "rename-range:%s %s" % (other, where), m
     elif k == "type":
         m = copy.deepcopy(doc)
         set_path(m, path, "NoSuchPrimitive")
@@ -472,6 +500,14 @@ def _mut_d(doc, path, d, key, where):
                 mm = get_path(m, path)
                 mm["notanint"] = mm.pop(kk)
                 yield "map-key-not-int:%s %s" % (key, where), m
+                for how, respell in (("leading-zero", lambda x: ("-0" + x[1:]) if x.startswith("-") else "0" + x), ("space", lambda x: " " + x),
+                                     ("plus", lambda x: x if x.startswith("-") else "+" + x)):
+                    nk = respell(kk)
+                    if nk != kk and nk not in val:
+                        m = copy.deepcopy(doc)
+                        mm = get_path(m, path)
+                        mm[nk] = mm.pop(kk)
+                        yield "map-key-respelled:%s:%s %s" % (key, how, where), m
             if d[2] == "str1":
                 m = copy.deepcopy(doc)
                 set_path(m, path, {})
@@ -529,5 +565,15 @@ def _mut_d(doc, path, d, key, where):
                 m = copy.deepcopy(doc)
                 set_path(m, path + [i, "v"], [1.0, {"a": 1}])
                 yield "elem-retype:%s[%d].v:listofdict %s" % (key, i, where), m
+                vv = val[i].get("v") if isinstance(val[i], dict) else None
+                for how, bad in (("str", "x"), ("num", 1.5), ("numlist", [1.5])):
+                    if not ((how == "str" and isinstance(vv, str)) or (how == "num" and is_num(vv)) or (how == "numlist" and isinstance(vv, list))):
+                        m = copy.deepcopy(doc)
+                        set_path(m, path + [i, "v"], bad)
+                        yield "elem-retype:%s[%d].v:%s %s" % (key, i, how, where), m
+            if val:
+                m = copy.deepcopy(doc)
+                get_path(m, path).append(copy.deepcopy(val[0]))
+                yield "elem-duplicate:%s[0] %s" % (key, where), m
     elif k == "frag":
         pass  # handled when the child fragment itself is visited
